@@ -120,21 +120,53 @@ def lattice_scripts(rng, n):
     for i in range(n):
         vs = ["x", "y", "z"]
         def warm():
-            a, b = rng.sample(vs, 2)
+            a, b = rng.sample(vs, 2) if rng.random() < 0.5 else rng.sample(["u", "w"], 2)
             return "(assert (<= (+ %s %s) %d))" % (a, b, rng.randint(3, 9))
         k = rng.random()
-        if k < 0.4:
+        if k < 0.15:
             g = rng.choice([2, 3, 4, 6])
             a, b = g * rng.randint(1, 3), g * rng.randint(1, 3)
             c = g * rng.randint(-3, 3) + rng.randint(1, g - 1)
             hard = ["(assert (= (+ (* %d x) (* %d y)) %d))" % (a, b, c)]
-        elif k < 0.7:
+        elif k < 0.3:
             m = rng.choice([2, 3, 5])
             hard = ["(assert (< 0 (- (* %d x) (* %d y))))" % (m, m), "(assert (< (- (* %d x) (* %d y)) %d))" % (m, m, m)]
         else:
-            hard = ["(assert (>= (- (* 5 x) (* 5 y)) 1))", "(assert (<= (- (* 5 x) (* 5 y)) 4))", "(assert (<= 0 x))", "(assert (<= x 10))"]
-        lines = ["(set-option :produce-models true)", "(set-logic QF_LIA)"] + ["(declare-fun %s () Int)" % v for v in vs]
-        lines += ["(push 1)", warm(), warm(), "(check-sat)", "(get-model)", "(pop 1)"]
+            # a random lattice-free polygon inside the box [-8,8]^2: real-feasible (some vertex satisfies all constraints),
+            # no integer point (exhaustive over the box) -- needs branch-and-bound or cuts, not just bound tightening
+            from fractions import Fraction
+            hard = None
+            for _ in range(400):
+                cs = [(rng.randint(-4, 4), rng.randint(-4, 4), rng.randint(-6, 6)) for _ in range(rng.randint(3, 4))]
+                cs = [c for c in cs if (c[0], c[1]) != (0, 0)]
+                if len(cs) < 3:
+                    continue
+                allc = cs + [(1, 0, 8), (-1, 0, 8), (0, 1, 8), (0, -1, 8)]
+                sat_pt = False
+                for i1 in range(len(allc)):
+                    for i2 in range(i1 + 1, len(allc)):
+                        a1, b1, c1 = allc[i1]
+                        a2, b2, c2 = allc[i2]
+                        det = a1 * b2 - a2 * b1
+                        if det == 0:
+                            continue
+                        px, py = Fraction(c1 * b2 - c2 * b1, det), Fraction(a1 * c2 - a2 * c1, det)
+                        if all(a * px + b * py <= c for a, b, c in allc):
+                            sat_pt = True
+                            break
+                    if sat_pt:
+                        break
+                if not sat_pt:
+                    continue
+                if any(all(a * ix + b * iy <= c for a, b, c in cs) for ix in range(-8, 9) for iy in range(-8, 9)):
+                    continue
+                hard = ["(assert (<= (+ (* %s x) (* %s y)) %s))" % tuple(("(- %d)" % -v if v < 0 else "%d" % v) for v in c) for c in cs]
+                hard += ["(assert (<= (- 8) x))", "(assert (<= x 8))", "(assert (<= (- 8) y))", "(assert (<= y 8))"]
+                break
+            if hard is None:
+                hard = ["(assert (<= (- (* 3 x) y) 2))", "(assert (<= (- (* 2 y) x) (- 1)))", "(assert (<= (- (- x) y) 0))"]
+        lines = ["(set-option :produce-models true)", "(set-logic QF_LIA)"] + ["(declare-fun %s () Int)" % v for v in vs + ["u", "w"]]
+        lines += ["(push 1)", warm(), warm(), warm(), "(check-sat)", "(get-model)", "(pop 1)"]
         if rng.random() < 0.5:
             lines += ["(push 1)"]
         lines += [warm()] + hard + ["(check-sat)", "(get-model)"]
@@ -226,7 +258,7 @@ def run(ctx):
     import solvercheck as sc
     directed(ctx, dl_graph_scripts(ctx.rng, 60 if ctx.quick else 1500), "dl-graph")
     directed(ctx, dl_detour_scripts(ctx.rng, 240 if ctx.quick else 5000), "dl-detour")
-    directed(ctx, lattice_scripts(ctx.rng, 40 if ctx.quick else 1000), "lattice")
+    directed(ctx, lattice_scripts(ctx.rng, 80 if ctx.quick else 2000), "lattice")
     cnf_tie(ctx, 90 if ctx.quick else 2500)
     answercheck.run_corpus(ctx, "C02", judge_sat=True, judge_unsat=False)
     for text, logic, c in dl_boundary_scripts(ctx.rng, 40 if ctx.quick else 600):
